@@ -155,6 +155,17 @@ CLAIMED["C04"] = dict(
     note="Trusted: Coq kernel + vm_compute; serializer and the Python substitution of the Variable by a fresh terminal; chain-rule laws as for C02; the shape law is proved per traced case only; diff(...)[i] indexed before expansion, ReferenceValue, forms not covered.",
     design="0.1/C04")
 
+CLAIMED["C03"] = dict(
+    technique="Coq: Gallina model of the Grad rules with soundness by induction in an arbitrary differential UFL algebra + per-run traced obligations on the real apply_derivatives after apply_algebra_lowering",
+    text="Grad denotes an arbitrary family D_j; the property is proved for every family of derivations obeying the chain rules and the affine-geometry laws (dx_i/dx_j = delta_ij, cellwise constants differentiate to 0). Props/C03_model.v models the GradRuleset rules and the dispatcher for nested (.).dx(j); C03_dj_sound, C03_grad_sound and C03_AD_value prove by induction for all expressions that the model's output has the value of the derivative and C03_AD_normal_form that derivatives end up on Grad^k(terminal) only. On every run the real apply_derivatives(apply_algebra_lowering(e)) is traced on ~118 rule/operand patterns per cell, a constructor family (folding in Grad/Div.__new__ visible), seeded random typed expressions with nested grad/div/curl/nabla_grad/nabla_div/.dx up to order 3 over x, J, K, detJ, n, constants, and a reference-frame family (grad_to_reference_grad, gdim > tdim, non-affine P2); Coq proves den(out) = den(in) for all field values and that every output is in normal form.",
+    note="Trusted: Coq kernel + vm_compute; serializer; derivation and chain-rule laws, constant geometry on affine simplices, characteristic 0 are hypotheses; tensor-valued intermediates, curl/div lowering and reference-frame rules are proved per traced configuration only; erf/Bessel by traces only. 2 known findings (both raise on valid input).",
+    design="0.1/C03")
+CLAIMED["C21"] = dict(
+    technique="Coq: substitution lemma by full structural induction for a Gallina model of replace + traced obligations on the real ufl.replace + model correspondence by vm_compute",
+    text="Props/C21_model.v: for all expressions and all mappings of terminals to closed expressions, C21_subst proves den(rep m e) in env equals den e in the environment that maps each mapped terminal to the value of its image - including under Grad (the derivation acts on the image), restrictions and variables; C21_shape_reject: the checked replace fails exactly when a shape is incompatible; C21_identity: without mapped terminals the expression is returned unchanged. On every run the real ufl.replace runs on 29 fixed key-parent patterns and seeded random expression x mapping pairs; the expected expression is produced by an independent substitution inside the serializer and Coq proves den(out) = den(expected) for all values and that the Gallina model returns the same tree; shape-changing mappings must raise and unmapped expressions must come back unchanged.",
+    note="Trusted: Coq kernel + vm_compute; serializer-level substitution; images without free indices; kpow agrees with kpown on literal naturals; BaseForm / ExternalOperator / Interpolate handlers and form-level replace not covered.",
+    design="0.1/C21")
+
 REASON_PENDING = "model not finished in this revision; not claimed rather than claimed with a non-proof check"
 
 
